@@ -28,10 +28,12 @@ def soft_equal(obs, model):
     return obs == model
 
 
-def vm_sample(chk, res, n=30):
+def vm_sample(chk, res, viol_inputs, n=30):
     """Evaluate a few cases inside coqc and compare with the implementation's observation."""
     picked = []
     for c in res["cases"]:
+        if c["m"] in viol_inputs:
+            continue   # the searcher reports the property failing on this input; leave it to that report
         d = wc.parse_m(c["m"])
         tot = d.get("total", "none")
         if d.get("pad", "-") not in ("-", "none") and int(d["pad"]) > 5000:
@@ -113,7 +115,7 @@ def run(chk):
             outs = wc.run_model(chk, exe, [c["m"] + " profile=" + r["profile"] for c in r["cases"]])
             if outs is not None:
                 disagreements += wc.diff_cases(chk, "c15", r, outs, viol_inputs)
-            vm_n += vm_sample(chk, r)
+            vm_n += vm_sample(chk, r, viol_inputs)
         wc.report_viols(chk, r)
     evaluations = sum(len(r["cases"]) for r in runs)
     distinct = len(set(c["m"] for r in runs for c in r["cases"] if "new:ok" in c["obs"] or "err" in c["obs"]))
